@@ -107,6 +107,10 @@ func C16Config(prop string, r *Rand, tier string) map[string]int64 {
 	c["w_rpcfault"] = int64(r.Range(0, 6))
 	c["w_crash"] = int64(r.Range(0, 4))
 	c["w_l1"] = int64(r.Range(2, 10)) // L1 info syncer catches up
+	c["big_jumps"] = 0
+	if r.Bool(35) {
+		c["big_jumps"] = 1
+	}
 	c["l1_known"] = int64(r.Range(0, c16NGERs))
 	if r.Bool(40) {
 		c["l1_known"] = c16NGERs // never lags
@@ -234,7 +238,7 @@ func runC16(tr *Trace, sc *Script, rec *Recorder, scratch string) *Violation {
 	defer func() { stop() }()
 
 	density := int(cfg["density"])
-	fill := func(r *Rand) func(b *FBlock) {
+	fillD := func(r *Rand, density int) func(b *FBlock) {
 		return func(b *FBlock) {
 			present := c16Present(chain, chain.HeadNum())
 			ev := c16Ev{None: true}
@@ -272,6 +276,7 @@ func runC16(tr *Trace, sc *Script, rec *Recorder, scratch string) *Violation {
 			}
 		}
 	}
+	fill := func(r *Rand) func(b *FBlock) { return fillD(r, density) }
 
 	type row struct {
 		blk  uint64
@@ -378,6 +383,10 @@ func runC16(tr *Trace, sc *Script, rec *Recorder, scratch string) *Violation {
 			if r.Bool(45) {
 				n = r.Range(2, 6)
 			}
+			if cfg["big_jumps"] == 1 && r.Bool(12) {
+				// "however many L2 blocks are produced between two polls": hundreds at once (node was down / poll stalled)
+				n = r.Range(90, 320)
+			}
 			return Op{K: "mine", A: []int64{int64(r.U64() >> 1), int64(n)}}, true
 		case 1:
 			maxDepth := int(chain.HeadNum() - floor())
@@ -404,10 +413,17 @@ func runC16(tr *Trace, sc *Script, rec *Recorder, scratch string) *Violation {
 		case "mine":
 			r := NewRand(uint64(op.Arg(0)))
 			chain.snapshotPrev()
+			d := density
+			if op.Arg(1) >= 90 {
+				d = 1 + int(uint64(op.Arg(0))%3) // sparse events: long empty stretches inside one catch-up
+			}
 			for i := int64(0); i < op.Arg(1); i++ {
-				chain.Mine(r.U64(), fill(r))
+				chain.Mine(r.U64(), fillD(r, d))
 			}
 			rec.Stats.Add("blocks_mined", op.Arg(1))
+			if op.Arg(1) >= 90 {
+				rec.Stats.Inc("tip_jumps_over_90_blocks")
+			}
 			rec.Step(fmt.Sprintf("M%d", op.Arg(1)))
 		case "fork":
 			d := uint64(op.Arg(1))
